@@ -267,3 +267,43 @@ VERIF_HARNESS(c16_b3_get) {
   }
   VERIF_REACH("B3 end");
 }
+
+/* ---- L1: coap_replace_percents (the percent-decoding step of coap_path_into_optlist / coap_query_into_optlist / Uri-Host) --------
+ * on every N-byte option value held in an EXACT-SIZE object: "%HH" is decoded exactly once, everything else - including a '%' that
+ * is not followed by two more bytes - is kept literally, and no byte outside the value is read. */
+static int
+hexv(uint8_t c) {
+  if (c >= '0' && c <= '9') return c - '0';
+  if (c >= 'a' && c <= 'f') return c - 'a' + 10;
+  if (c >= 'A' && c <= 'F') return c - 'A' + 10;
+  return -1;
+}
+VERIF_HARNESS(c16_l1_replace_percents) {
+#if N > 0
+  VERIF_IN_BUF(in, N);
+#else
+  uint8_t in[1] = {0};
+#endif
+  uint8_t *s = exact(in, N);
+  static coap_optlist_t node;
+  uint8_t e[N + 1];
+  size_t el = 0, i;
+  int wellformed = 1;
+  for (i = 0; i < N; i++) {
+    if (in[i] == '%' && N - i >= 3) {
+      int h = hexv(in[i + 1]), l = hexv(in[i + 2]);
+      if (h < 0 || l < 0) { wellformed = 0; h = l = 0; }
+      e[el++] = (uint8_t)((h << 4) + l);
+      i += 2;
+    } else e[el++] = in[i];
+  }
+  memset(&node, 0, sizeof(node));
+  node.number = COAP_OPTION_URI_PATH;
+  node.length = N;
+  node.data = s;
+  coap_replace_percents(&node);
+  VERIF_ASSERT(node.length == el, "L1 replace_percents: each complete %HH escape shrinks the value by two, nothing else changes its length");
+  if (wellformed) for (i = 0; i < el; i++) VERIF_ASSERT(node.data[i] == e[i], "L1 replace_percents: %HH decoded exactly once, other bytes (also an incomplete trailing escape) kept literally");
+  free(s);
+  VERIF_REACH("L1 end");
+}
